@@ -21,6 +21,9 @@ TRUSTED = [
     ">= 2^31 characters is not modelled), char* pointer arithmetic as list suffixes/reversal",
     "the private Genotype(index, ploidy) constructor is not reachable from Python and is not modelled; "
     "Genotype::toString is compared only through the parsed allele list",
+    "the pickle/copy protocols (__reduce__ -> Genotype([]) + __setstate__) are Python machinery and are exercised "
+    "directly (all pickle protocols, copy.copy, copy.deepcopy: restored object == original, same vector, index, ploidy); "
+    "the Coq model covers __getstate__/__setstate__ themselves",
 ]
 ASSUMPTIONS = [
     "supported limits as enforced by the constructor: ploidy <= 14 (Genotype(vector) rejects size >= MAX_PLOIDY = 15), "
@@ -166,10 +169,17 @@ E_L2 = """fun c => let '(s, t, ers) := c in
 
 
 def evaluate(name, fns, cases, shard=400):
-    failing, errors = eval_checks(name, HEADER, fns, cases, shard=shard)
+    """eval_checks with the cases dealt round-robin over the shards (expensive cases come in runs)."""
+    n = len(cases)
+    if n == 0:
+        return {lab: [] for lab in fns}
+    shard = max(1, min(shard, -(-n // 16)))
+    nsh = -(-n // shard)
+    order = sorted(range(n), key=lambda i: (i % nsh, i))
+    failing, errors = eval_checks(name, HEADER, fns, [cases[i] for i in order], shard=-(-n // nsh))
     if errors:
         raise RuntimeError("coq evaluation failed: " + errors[0][1])
-    return failing
+    return {lab: sorted(order[k] for k in ks) for lab, ks in failing.items()}
 
 
 # ------------------------------------------------------------------ genotype streams
@@ -475,7 +485,7 @@ def run(ctx):
                 g_inputs.append((list(reversed(ms)), n_eff))
     corpus = [([2, 0, 1], 3), ([], 1), ([15] * 14, 16), ([0] * 14, 1), ([15] + [0] * 13, 16), (list(range(14)), 14),
               (list(range(15, 1, -1)), 16), ([7] * 14, 8), ([15], 16), ([14, 15] * 7, 16)]
-    n_samp = ctx.n(600, 20000)
+    n_samp = ctx.n(600, 12000)
     samp = []
     for _ in range(n_samp):
         p = rng.choice([rng.randint(0, 14), rng.randint(7, 14), 14])
@@ -497,7 +507,7 @@ def run(ctx):
             lo = py_binom(n - 1 + p - 1, p) if n > 1 and p > 0 else 0      # indices new for this n (smaller ones: smaller n)
             for i in range(lo, total):
                 u_inputs.append((i, p, n))
-    for _ in range(ctx.n(400, 10000)):
+    for _ in range(ctx.n(400, 6000)):
         p = rng.choice([rng.randint(1, 14), 14, 13])
         n = rng.choice([rng.randint(1, 16), 16])
         total = py_binom(n + p - 1, p)
